@@ -1,11 +1,11 @@
-\* (E) exhaustive, as written: companion breakpoint before the slot allocation (watchpoint.rs:371-396)
+\* (E) exhaustive, thorough: all command sequences of length <= 7, every size x condition x access path on every location
 SPECIFICATION Spec
 CONSTANTS
-  Globals = {"G0", "G1", "G2", "G3"}
+  Globals = {"G0", "G1", "G2", "G3", "G4", "G5"}
   Locals = {"LA", "LB"}
-  KindTab <- SpreadTab
-  MaxOps = 6
-  SlotFirst = FALSE
+  KindTab <- FullTab
+  MaxOps = 7
+  SlotFirst = TRUE
   Distribute = TRUE
   Gen = FALSE
   ViewSlots = TRUE
